@@ -11,10 +11,12 @@ repaired code).  Throughout:
 Guards (each an explicit hypothesis where the proof needs it, each with a witness theorem at
 the end of the file showing the conclusion fails without it):
   * `NodupKeys … s.mounts / s.devices` — original mount destinations / device paths distinct
-    (`RemoveMount`/`RemoveDevice` delete only the first match);
+    (`RemoveMount`/`RemoveDevice` delete only the first match); preserved by `adjust`
+    (`C13_mounts_nodup_preserved`, `C13_devices_nodup_preserved`);
   * `Env.WF s.env` — original environment entries are `NAME=value` with distinct non-empty names;
-    adjustment keys contain no `'='` and the name looked up is not `""`;
-  * cleaned mount destinations for "parents first".
+    adjustment keys contain no `'='` and the name looked up is not `""`; preserved by `adjust`
+    (`C13_env_wf_preserved`);
+  * for "parents first": the PARENT's destination is a cleaned path (children may be unclean).
 "Marked" = key starts with `'-'` (removal marker).
 -/
 namespace Nri.Props.C13
@@ -33,6 +35,18 @@ theorem C13_annotations_perm (ann : AList Str Str) (E π : List (Str × Str)) (h
 
 example : (([(str "-k", []), (str "k", str "new")] : List (Str × Str)).Perm
     [(str "k", str "new"), (str "-k", [])]) := List.Perm.swap _ _ _
+
+/-- Determinism for what Go really does: the removal loop and the set loop of
+    `AdjustAnnotations` each draw their OWN iteration order (`π1`, `π2`) of the same map; every
+    pair of orders gives the same annotations. -/
+theorem C13_annotations_two_orders (ann : AList Str Str) (E π1 π2 : List (Str × Str))
+    (h1 : π1.Perm E) (h2 : π2.Perm E) (hn : AList.WF E) (k : Str) :
+    AList.lookup (Annotations.applyOrders ann π1 π2) k = AList.lookup (Annotations.apply ann E) k :=
+  Annotations.lookup_applyOrders ann h1 h2 hn k
+
+example : AList.lookup (Annotations.applyOrders [(str "k", str "old")]
+      [(str "k", str "new"), (str "-k", [])] [(str "-k", []), (str "k", str "new")]) (str "k")
+    = some (str "new") := by decide
 
 /-- Set wins: an unmarked entry `(k, v)` ends up as the value of `k`, also when `-k` is in the
     same adjustment, whatever the iteration order. -/
@@ -320,19 +334,40 @@ theorem C13_mounts_sorted (hext : ext.CDIFramed) (h : adjust ext s a = .ok s')
     (hne : a.mounts ≠ []) : Mounts.Sorted s'.mounts := by
   rw [mounts_eq hext h hne]; exact Mounts.sortMounts_sorted _
 
-/-- Parents first: under cleaned destinations, after a mount adjustment every mount stands
-    after every mount of one of its ancestor directories. -/
+/-- Parents first: after a mount adjustment a mount `p` whose destination is a cleaned path
+    stands before every mount `c` whose destination DENOTES (`filepath.Clean`) a directory below
+    `p`.  Only the parent has to be cleaned; `c` may be written `/data/`, `//x/./y`, ….  (When `p`
+    is the root, `c` must be written with a leading `/`, as every absolute path is.)
+    The guard on `p` cannot be dropped: `guard_unclean_child_first`. -/
 theorem C13_parent_first (hext : ext.CDIFramed) (h : adjust ext s a = .ok s')
     (hne : a.mounts ≠ [])
-    (hclean : ∀ m ∈ s'.mounts, Mounts.cleanPath m.destination = m.destination)
     {i j : Nat} {p c : Oci.Mount} (hi : s'.mounts[i]? = some p) (hj : s'.mounts[j]? = some c)
-    (hanc : Mounts.IsAncestor p.destination c.destination) : i < j := by
+    (hclean : Mounts.cleanPath p.destination = p.destination)
+    (habs : p.destination = ['/'] → ∃ t, c.destination = '/' :: t)
+    (hanc : Mounts.IsAncestor p.destination (Mounts.cleanPath c.destination)) : i < j := by
   have hs := C13_mounts_sorted hext h hne
-  have hp : p ∈ s'.mounts := List.mem_of_getElem? hi
-  have hc : c ∈ s'.mounts := List.mem_of_getElem? hj
-  exact Mounts.sorted_index_lt hs hi hj (Mounts.mountLt_of_ancestor (hclean p hp) (hclean c hc) hanc)
+  exact Mounts.sorted_index_lt hs hi hj (Mounts.mountLt_of_clean_parent hclean habs hanc)
 
-/-- The cleaned-path hypothesis of `C13_parent_first` follows from cleaned INPUTS. -/
+example : Mounts.cleanPath (str "/a") = str "/a" ∧
+    Mounts.IsAncestor (str "/a") (Mounts.cleanPath (str "/a//b/")) :=
+  ⟨by decide, str "b", by decide, Or.inl (by decide)⟩
+
+/-- The special case with both destinations cleaned (the form stated before the review). -/
+theorem C13_parent_first_clean (hext : ext.CDIFramed) (h : adjust ext s a = .ok s')
+    (hne : a.mounts ≠ [])
+    {i j : Nat} {p c : Oci.Mount} (hi : s'.mounts[i]? = some p) (hj : s'.mounts[j]? = some c)
+    (hp : Mounts.cleanPath p.destination = p.destination)
+    (hc : Mounts.cleanPath c.destination = c.destination)
+    (hanc : Mounts.IsAncestor p.destination c.destination) : i < j := by
+  apply C13_parent_first hext h hne hi hj hp
+  · intro hroot
+    obtain ⟨rest, _, hr | ⟨_, hr⟩⟩ := hanc
+    · rw [hr, hroot]; exact ⟨_, rfl⟩
+    · exact ⟨rest, hr⟩
+  · rw [hc]; exact hanc
+
+/-- Cleaned INPUTS give a cleaned result (so the hypotheses of `C13_parent_first_clean`, and the
+    hypothesis on the parent in `C13_parent_first`, can be put on the inputs). -/
 theorem C13_clean_paths_preserved (hext : ext.CDIFramed) (h : adjust ext s a = .ok s') (hne : a.mounts ≠ [])
     (h1 : ∀ m ∈ s.mounts, Mounts.cleanPath m.destination = m.destination)
     (h2 : ∀ m ∈ a.mounts, isMarked m.destination = false → Mounts.cleanPath m.destination = m.destination) :
@@ -530,6 +565,114 @@ theorem C13_resources_untouched (hext : ext.CDIFramed) (h : adjust ext s a = .ok
   · rw [ok.unified, hr]; rfl
   · rw [ok.pids, hr]; rfl
 
+/-! ## Not requested ⇒ not touched (the remaining families) -/
+
+/-- No hooks in the adjustment: all six hook lists are unchanged. -/
+theorem C13_hooks_untouched (hext : ext.CDIFramed) (h : adjust ext s a = .ok s')
+    (hh : a.hooks = none) : s'.hooks = s.hooks := by
+  rw [(adjust_ok hext h).hooks, hh]
+
+/-- A resources section without a cpu / without a memory section leaves cpu / memory unchanged;
+    so does a memory section without a limit, or with limit 0 (finding C13-limit0). -/
+theorem C13_cpu_untouched (hext : ext.CDIFramed) (h : adjust ext s a = .ok s') (r : LinuxResources)
+    (hr : a.resources = some r) (hc : r.cpu = none) : s'.cpu = s.cpu := by
+  rw [(adjust_ok hext h).cpu]; unfold Resources.cpuAfter; rw [hr]; simp only [hc]
+
+theorem C13_memory_untouched (hext : ext.CDIFramed) (h : adjust ext s a = .ok s') (r : LinuxResources)
+    (hr : a.resources = some r)
+    (hm : r.memory = none ∨ ∃ m, r.memory = some m ∧ (m.limit = none ∨ m.limit = some 0)) :
+    s'.memory = s.memory := by
+  rw [(adjust_ok hext h).memory]; unfold Resources.memoryAfter; rw [hr]
+  rcases hm with hm | ⟨m, hm, hl | hl⟩
+  · simp only [hm]
+  · simp only [hm, Resources.applyMemory, hl]
+  · simp only [hm, Resources.applyMemory, hl]; rfl
+
+/-- Without an injector, or without CDI names, `cdi` is unchanged. -/
+theorem C13_cdi_untouched (hext : ext.CDIFramed) (h : adjust ext s a = .ok s')
+    (hn : ext.injectCDI = none ∨ a.cdiDevices = []) : s'.cdi = s.cdi := by
+  obtain ⟨s1, h1, h2⟩ := (adjust_ok hext h).cdi
+  rw [h2]
+  unfold injectCDI at h1
+  rcases hn with hn | hn
+  · rw [hn] at h1; cases h1; rw [pre_fields]
+  · cases hi : ext.injectCDI with
+    | none => rw [hi] at h1; cases h1; rw [pre_fields]
+    | some inj => rw [hi, hn] at h1; simp only [List.isEmpty_nil, if_true] at h1; cases h1; rw [pre_fields]
+
+/-- `Linux.RootfsPropagation` is only ever changed by a mount that is SET with an `rshared` or
+    `rslave` option; removals and other mounts leave it alone. -/
+theorem C13_rootfs_propagation_untouched (hext : ext.CDIFramed) (h : adjust ext s a = .ok s')
+    (hq : ∀ m ∈ a.mounts, isMarked m.destination = false →
+      ∀ o ∈ m.options, o ≠ str "rshared" ∧ o ≠ str "rslave") :
+    s'.rootfsPropagation = s.rootfsPropagation :=
+  Mounts.apply_rootfs (adjust_ok hext h).mounts hq
+
+example : ∀ o ∈ [str "ro", str "rprivate"], o ≠ str "rshared" ∧ o ≠ str "rslave" := by decide
+
+/-! ## The guards hold again of the result (plugin chains, repeated application) -/
+
+/-- `Env.WF` is preserved: the result is again a list of `NAME=value` entries with non-empty
+    names each occurring ONCE — so the env theorems apply to the output of a previous `Adjust`. -/
+theorem C13_env_wf_preserved (hext : ext.CDIFramed) (h : adjust ext s a = .ok s')
+    (hwf : Env.WF s.env) (hkeys : ∀ x ∈ a.env, '=' ∉ stripMarker x.key) : Env.WF s'.env := by
+  rw [(adjust_ok hext h).env]; exact Env.wf_apply s.env a.env hwf hkeys
+
+/-- Uniqueness: no variable name occurs twice in the resulting environment; together with
+    `C13_env_set_wins` the requested entry is THE entry of its name, not merely the first. -/
+theorem C13_env_unique (hext : ext.CDIFramed) (h : adjust ext s a = .ok s')
+    (hwf : Env.WF s.env) (hkeys : ∀ x ∈ a.env, '=' ∉ stripMarker x.key) :
+    (s'.env.map Env.nameOf).Nodup := (C13_env_wf_preserved hext h hwf hkeys).nodup
+
+/-- … hence every entry of the result whose name is `k` IS `k=value` for the looked-up value. -/
+theorem C13_env_set_wins_unique (hext : ext.CDIFramed) (h : adjust ext s a = .ok s')
+    (hwf : Env.WF s.env) (hkeys : ∀ x ∈ a.env, '=' ∉ stripMarker x.key)
+    {e : KeyValue} (he : LastSet KeyValue.key a.env e) (hk : e.key ≠ [])
+    {x : Str} (hx : x ∈ s'.env) (hn : Env.nameOf x = e.key) : x = e.toOCI := by
+  have hwf' := C13_env_wf_preserved hext h hwf hkeys
+  have hl := C13_env_set_wins hext h hwf hkeys he hk
+  obtain ⟨n, v, hs, _⟩ := hwf'.split x hx
+  have hnk : n = e.key := by rw [← hn, Env.nameOf_of_split hs]
+  -- the first entry named `e.key` carries `e.value`; names are unique, so it is `x`
+  have key : ∀ (l : List Str), (l.map Env.nameOf).Nodup → x ∈ l → Env.lookup l e.key = some v := by
+    intro l hnd hxl
+    induction l with
+    | nil => cases hxl
+    | cons y r ih =>
+      rw [List.map_cons, List.nodup_cons] at hnd
+      rcases List.mem_cons.mp hxl with hxy | hxr
+      · subst hxy; simp [Env.lookup, hs, hnk]
+      · have hyx : Env.nameOf y ≠ e.key := by
+          intro hy; apply hnd.1; rw [hy, ← hn]; exact List.mem_map.mpr ⟨x, hxr, rfl⟩
+        unfold Env.lookup
+        cases hsy : Env.splitEq y with
+        | none => simp only; exact ih hnd.2 hxr
+        | some q =>
+          obtain ⟨ny, vy⟩ := q
+          have : ny ≠ e.key := by rw [← Env.nameOf_of_split hsy]; exact hyx
+          simp only [this, if_false]; exact ih hnd.2 hxr
+  have := key s'.env hwf'.nodup hx
+  rw [hl] at this
+  have hv : v = e.value := (Option.some.inj this).symm
+  rw [(Env.splitEq_some hs).1, hnk, hv]; rfl
+
+/-- Distinct mount destinations are preserved … -/
+theorem C13_mounts_nodup_preserved (hext : ext.CDIFramed) (h : adjust ext s a = .ok s')
+    (hn : NodupKeys Oci.Mount.destination s.mounts) : NodupKeys Oci.Mount.destination s'.mounts := by
+  by_cases hne : a.mounts = []
+  · rw [(C13_mounts_untouched hext h hne).1]; exact hn
+  rw [mounts_eq hext h hne]
+  exact Mounts.nodup_sortMounts
+    (nodup_gSets Oci.Mount.destination Api.Mount.destination Api.Mount.toOCI (fun _ _ => rfl) a.mounts
+      (nodup_gRemovals Oci.Mount.destination Api.Mount.destination a.mounts hn))
+
+/-- … and so are distinct device paths. -/
+theorem C13_devices_nodup_preserved (hext : ext.CDIFramed) (h : adjust ext s a = .ok s')
+    (hn : NodupKeys Oci.Device.path s.devices) : NodupKeys Oci.Device.path s'.devices := by
+  rw [devices_eq hext h hn]
+  exact nodup_gSets Oci.Device.path LinuxDevice.path LinuxDevice.toOCI (fun _ _ => rfl) a.linuxDevices
+    (nodup_gRemovals Oci.Device.path LinuxDevice.path a.linuxDevices hn)
+
 /-! ## Determinism -/
 
 /-- Up to the representation of the two maps, two specs are the same. -/
@@ -607,6 +750,28 @@ theorem C13_deterministic {bad : List Str}
       cases hres : l.resources with
       | none => simp [hres]
       | some rr => simp [hres]
+
+/-- Same inputs, same spec, for EVERY internal iteration order: `adjustOrders` runs `Adjust` with
+    the removal loop of the annotations seeing the map in order `π1`, the set loop in an
+    independent order `π2`, and the unified loop in order `σ` (these are all the map iterations
+    in `Adjust`; everything else ranges over slices).  Whatever the three orders, it succeeds
+    whenever `adjust` does and yields an equal spec. -/
+theorem C13_deterministic_orders {bad : List Str}
+    (hi : ext.injectCDI = some (recordingInjector bad) ∨ ext.injectCDI = none)
+    (π1 π2 σ : List (Str × Str)) (h1 : π1.Perm a.annotations) (h2 : π2.Perm a.annotations)
+    (hσ : σ.Perm (unifiedOf a)) (hn1 : AList.WF a.annotations) (hn2 : AList.WF (unifiedOf a))
+    (h : adjust ext s a = .ok s') :
+    ∃ s'', adjustOrders ext s a π1 π2 σ = .ok s'' ∧ SpecEqv s'' s' := by
+  rw [adjustOrders_eq]
+  exact C13_deterministic hi (Annotations.mergeOrders π1 π2) σ (Annotations.mergeOrders_perm h1 h2) hσ hn1 hn2 h
+
+/-- … and `adjust` itself is the instance "every loop sees the entries as listed". -/
+theorem C13_adjust_is_adjustOrders (ext : Externals) (s : Spec) (a : Adjustment) :
+    adjust ext s a = adjustOrders ext s a a.annotations a.annotations (unifiedOf a) :=
+  adjust_eq_adjustOrders ext s a
+
+example : ([(str "-k", ([] : Str)), (str "k", str "v")] : List (Str × Str)).Perm
+    [(str "k", str "v"), (str "-k", [])] := List.Perm.swap _ _ _
 
 /-! ## The hypotheses are satisfiable, and the driver's guards imply them -/
 
@@ -734,7 +899,7 @@ theorem unfixed_args_marker :
     Args.applyUnfixed [str "old"] [[], str "a", str "b"] = [[], str "a", str "b"] ∧
     Args.apply [str "old"] [[], str "a", str "b"] = [str "a", str "b"] := by decide
 
-/-- The code in /repo (before docs/fixes/C13-1.patch): `[FOO=new, -FOO]` on a spec with `FOO`
+/-- The code before /repo 6eaf34c (removals before additions): `[FOO=new, -FOO]` on a spec with `FOO`
     removes `FOO`; the repaired code keeps the set. -/
 theorem unfixed_env_set_then_remove :
     Env.lookup (Env.applyUnfixed [str "FOO=old"] [⟨str "FOO", str "new"⟩, ⟨str "-FOO", []⟩]) (str "FOO") = none ∧
@@ -757,7 +922,7 @@ theorem unfixed_mounts_set_then_remove :
       = .ok ([{ destination := str "/a", source := str "/new" }], []) := by
   constructor <;> rfl
 
-/-- docs/fixes/C13-1.patch is conservative: the repaired env / device / mount loops compute what
+/-- The repair 6eaf34c (formerly docs/fixes/C13-1.patch) is conservative: the repaired env / device / mount loops compute what
     the code before the repair computes on the same entries with the removals moved to the
     front (stably) — so nothing changes for an adjustment that already lists removals first. -/
 theorem C13_repair_conservative (s : Spec) (ext : Externals) (E : List KeyValue) (D : List LinuxDevice)
